@@ -220,6 +220,9 @@ func (L *Loaded) denyInterpret(fn *ssa.Function) bool {
 		return false // synthetic wrappers, bound methods
 	}
 	path := p.Pkg.Path()
+	if allowFns[fn.String()] {
+		return false
+	}
 	if denyPkgs[path] {
 		return true
 	}
@@ -229,4 +232,10 @@ func (L *Loaded) denyInterpret(fn *ssa.Function) bool {
 		}
 	}
 	return false
+}
+
+// plain-data methods of otherwise uninterpreted packages (error values the file-system model hands out)
+var allowFns = map[string]bool{
+	"(*os.LinkError).Error": true, "(*os.LinkError).Unwrap": true,
+	"(*os.SyscallError).Error": true, "(*os.SyscallError).Unwrap": true,
 }
